@@ -3,7 +3,9 @@ SPEC = {
     "level_text": "Theorems (Coq, all address lists of any length): with the ::/64 wildcard the advertised prefixes are exactly the /64 networks of the eligible addresses (IPv6, not link-local, length 64, not temporary, not tentative), without duplicates, strictly ascending, a function of the SET of listed entries only (permutation- and multiplicity-invariant), every option carries the stanza's length, flags and (C16) lifetimes, and a listing failure is an error -- down to the rtnetlink layer: a failed netlink request (with or without messages) makes AddressesByIndex fail, hence the plugin's source, hence Apply (C13_listing_failure); a successful request yields exactly the listed addresses with the documented meaning of the IFA_F_* bits and valid-forever (C13_listing_exact). The executable models of Prefix.current/apply/Apply and of addresser.AddressesByIndex / routesByIndex are tied to the real code by differential runs on injected address lists and on scripted netlink answers.",
     "level_note": "Trusted: Coq kernel + vm_compute; the Go driver and the rendering of cases; net/netip predicates (Masked, IsLinkLocalUnicast incl. its IPv4-mapped branch) are modelled arithmetically and sampled by the correspondence; the rtnetlink library itself (socket, message (un)marshalling) is outside the model: the answer of the injected execute function is the input.",
     "drivers": [{"pkg": "internal/plugin", "test": "TestVerifC13"},
-                {"pkg": "internal/system", "test": "TestVerifC13Addresser", "corr_module": "Corr.C13sys"}],
+                {"pkg": "internal/system", "test": "TestVerifC13Addresser", "corr_module": "Corr.C13sys"},
+                # real parallelism: wildcard expansions of several interfaces at the same time
+                {"pkg": "internal/plugin", "test": "TestVerifParallelApply", "arch386": []}],
     "rule": "bounded-exhaustive: every sequence with repetition of length <= 3 (quick) / <= 4 (thorough) over a 14-entry pool "
             "(= all subsets x all permutations, plus all multiplicities) mixing ULA/GUA/link-local/IPv4, lengths 48/64/128, each flag, "
             "two hosts per /64, the edges of fe80::/10; random lists up to length 40 (exact duplicates, IPv4, IPv4-mapped, random "
